@@ -58,6 +58,7 @@ def plan(tier, seed):
                 for explicit in (False, True):
                     g.append({"part": "gruneisen", "xtal": name, "S": S, "g": gexp, "eps": eps, "explicit_delta": explicit})
                 g.append({"part": "gruneisen", "xtal": name, "S": S, "g": gexp, "eps": eps, "explicit_delta": False, "swapped": True})
+                g.append({"part": "gruneisen", "xtal": name, "S": S, "g": gexp, "eps": eps, "explicit_delta": "double"})
             if name in NACX:
                 for nac in ("wang", "gonze"):
                     g.append({"part": "gruneisen", "xtal": name, "S": S, "g": gexp, "eps": 0.01, "explicit_delta": False, "nac": nac})
@@ -261,6 +262,18 @@ def run_gv(case, seed, st):
         from phonopy.phonon.group_velocity import GroupVelocity
         import phonopy.units as U
 
+        # the class used without a symmetry object, and with a direction, on several q-points in one call: each q keeps its own result
+        for kw_, what_ in (({"symmetry": None}, "symmetry=None"), ({"symmetry": ph.primitive_symmetry}, "perturbation given")):
+            gvn = GroupVelocity(ph.dynamical_matrix, frequency_factor_to_THz=U.VaspToTHz, **kw_)
+            pert = np.array([0.3, -0.2, 0.5]) if what_ == "perturbation given" else None
+            gvn.run(np.array(qs), perturbation=pert)
+            g_all = np.array(gvn.group_velocities)
+            for k in (0, len(qs) - 1):
+                gvn.run(np.array(qs[k:k + 1]), perturbation=pert)
+                g_one = np.array(gvn.group_velocities)[0]
+                if np.abs(g_all[k] - g_one).max() > 1e-9 * max(np.abs(g_one).max(), 1e-6):
+                    return dict(ok=False, sig="C12/gv-batch-vs-single/" + tag, nontrivial=True,
+                                msg="%s GroupVelocity(%s): q-point %d of a %d-point call gives %s, the same q alone %s" % (case["xtal"], what_, k, len(qs), g_all[k][0].round(5).tolist(), g_one[0].round(5).tolist()))
         for cut in (0.2 * width, 0.02 * width):
             gvc = GroupVelocity(ph.dynamical_matrix, symmetry=ph.primitive_symmetry, frequency_factor_to_THz=U.VaspToTHz, cutoff_frequency=cut)
             gvc.run(np.array(qs))
@@ -302,13 +315,15 @@ def run_gruneisen(case, seed, st):
             ph.nac_params = npar
         phs.append(ph)
     want = -((1 + eps) ** (-2 * gexp) - (1 - eps) ** (-2 * gexp)) / (4 * eps)
-    tag = ("explicit-delta" if case["explicit_delta"] else "delta-from-volumes") + ("/nac=%s" % case["nac"] if case.get("nac") else "")
+    if case["explicit_delta"] == "double":
+        want = want / 2  # the caller states a strain increment twice the one the volumes imply: gamma = -dD/(2 w^2 delta) halves
+    tag = ("explicit-delta-x2" if case["explicit_delta"] == "double" else "explicit-delta" if case["explicit_delta"] else "delta-from-volumes") + ("/nac=%s" % case["nac"] if case.get("nac") else "")
     if case.get("swapped"):
         # "built from the three volumes supplied": the larger volume handed over in the second-volume slot
         tag += "/larger-volume-in-the-minus-slot"
         gr = PhonopyGruneisen(phs[0], phs[2], phs[1])
     else:
-        gr = PhonopyGruneisen(phs[0], phs[1], phs[2], delta_strain=(2 * eps if case["explicit_delta"] else None))
+        gr = PhonopyGruneisen(phs[0], phs[1], phs[2], delta_strain=((4 * eps if case["explicit_delta"] == "double" else 2 * eps) if case["explicit_delta"] else None))
     worst = 0.0
     import phonopy.units as U
 
